@@ -125,7 +125,7 @@ def run_check(pid, tier, replay=None):
         cs3 = [c for c in cases_of(res3.out) if c["fields"][0]["nest"]]
         states += res3.distinct
         trans += res3.generated
-        runs.append({"universe": "one nested struct with two leaves over kinds %s" % kinds, "distinct_states": res3.distinct, "cases": len(cs3), "exhaustive": True})
+        runs.append({"universe": "one nested struct with two leaves over kinds %s" % kinds[:8], "distinct_states": res3.distinct, "cases": len(cs3), "exhaustive": True})
         cases += cs3
         if not quick:
             # (e) three top-level fields (leaf or struct with one leaf), no aliases, four kinds: ~640k states, one case in ten
